@@ -159,6 +159,17 @@ pub fn run(ctx: &mut Ctx) {
         bits[w * h - 2] = i % 2 == 0;
         eval(ctx, &bits, w, "large_bitmap");
     }
+    // one very long closed outline walk (> 65 535 unit edges from about 260x260 on)
+    let nc = ctx.budget(16 * 3, 16 * 30);
+    for i in 0..nc {
+        let (w, h) = match i % 3 {
+            0 => (ctx.rng.range(260, 420), ctx.rng.range(260, 420)),
+            1 => (ctx.rng.range(100, 250), ctx.rng.range(100, 250)),
+            _ => (ctx.rng.range(300, 700), ctx.rng.range(120, 300)),
+        };
+        let (bits, tag) = bitmaps::long_contour(&mut ctx.rng, w, h);
+        eval(ctx, &bits, w, tag);
+    }
     let n = ctx.budget(400_000, 8_000_000);
     for i in 0..n {
         let maxd = if i % 50 == 0 { 150 } else { 40 };
